@@ -245,7 +245,13 @@ def are_d_separated(
 
     # Filter to ancestors
     keep = graph.ancestors_inclusive(named)
-    evidence_graph = graph.subgraph(keep).moralize().disorient()
+    ancestral_graph = graph.subgraph(keep)
+    evidence_graph = ancestral_graph.moralize().disorient()
+    # a bidirected edge stands for a latent common parent, so all nodes of a district and
+    # their parents are pairwise collider-connected and must be married as well
+    for district in ancestral_graph.districts():
+        closure = district | ancestral_graph.get_markov_pillow(district)
+        evidence_graph.add_edges_from(combinations(closure, 2))
 
     keep = set(evidence_graph.nodes) - set(conditions)
     evidence_graph = evidence_graph.subgraph(keep)
